@@ -1046,7 +1046,12 @@ class ListenerWorld(FaultWorld):
             return None
         g = lambda n: object.__getattribute__(ch, n)
         sk = self.socks[fd]
-        req = g("request")
+        try:
+            req = g("request")
+            g("requests"), g("will_close"), g("close_when_flushed"), g("outbufs"), g("total_outbufs_len"), g("sent_continue")
+        except AttributeError as e:
+            # registered (add_channel ran) although HTTPChannel.__init__ did not complete
+            return {"broken": str(e), "in_map": self.map.get(fd) is ch, "in_act": self.server.active_channels.get(fd) is ch}
         return {
             "in_map": self.map.get(fd) is ch,
             "in_act": self.server.active_channels.get(fd) is ch,
@@ -1290,6 +1295,9 @@ def compare_listener(toks, exps, answers_line):
         for fd, st in snap.items():
             if st is None:
                 continue
+            if "broken" in st:
+                return "token %d %s: channel %s is registered (in_map=%s in_act=%s) although its constructor failed: %s" % (
+                    i, tok, FDS[fd], st["in_map"], st["in_act"], st["broken"])
             m = d[FDS[fd]]
             for key in ("in_map", "in_act", "fileno", "sock", "conn", "wc", "cwf", "bufc", "pend", "buf", "nreq",
                         "pexp", "sentc", "nclose", "wire"):
@@ -1317,7 +1325,7 @@ WATCH_ATTRS = {
     "_flush_some", "_flush_some_if_lockable",     # which flush function handle_write / write_soon select (not only call)
 }
 WATCH_NAMES = {"_DISCONNECTED", "EWOULDBLOCK", "ECONNABORTED", "EAGAIN", "EINTR", "ENOTCONN", "EBADF",
-               "_reraised_exceptions", "ClientDisconnected", "OSError", "Exception", "TypeError", "map", "fd", "ac"}
+               "_reraised_exceptions", "ClientDisconnected", "OSError", "Exception", "TypeError", "map"}
 
 SHAPE_METHODS = [
     ("wasyncore.py", None, "read"), ("wasyncore.py", None, "write"), ("wasyncore.py", None, "_exception"),
@@ -1388,7 +1396,7 @@ def _expr_tokens(e):
                 out.append(("w:" if isinstance(n.ctx, (ast.Store, ast.Del)) else "r:") + n.attr)
             return
         if isinstance(n, ast.Name):
-            if n.id in WATCH_NAMES:
+            if n.id in WATCH_NAMES or _is_local_name(n.id):
                 out.append("n:" + n.id)
             return
         if isinstance(n, ast.Compare):
@@ -1412,6 +1420,131 @@ def _expr_tokens(e):
 class _StrBlind(ast.NodeTransformer):
     def visit_Constant(self, n):
         return ast.copy_location(ast.Constant("S"), n) if isinstance(n.value, str) else n
+
+
+# ---- cosmetic invariance: function-LOCAL names are normalised ----------------------------------------------------------
+# Everything bound inside the function (assignment targets, `for` targets, `with ... as`, `except ... as`, comprehension
+# variables, walrus targets, nested def names) is renamed to _L1, _L2, ... in order of first binding occurrence (depth
+# first, in field order) before the function is tokenised; parameters (callers may pass them by keyword: map=, do_close=),
+# names declared global / nonlocal, attributes (self.*, channel.*, server.*) and module globals (errno constants,
+# _DISCONNECTED, exception classes) are left exactly as they are.  Annotated assignments lose their annotation
+# (`x: int = 0` == `x = 0`); comments, docstrings, argument / return annotations, blank lines, parenthesisation and line
+# wrapping are not part of the ast / of the tokens anyway.
+_LOCAL_PREFIX = "_L"
+
+
+def _is_local_name(name):
+    return name.startswith(_LOCAL_PREFIX) and name[len(_LOCAL_PREFIX):].isdigit()
+
+
+def _bound_names(fn):
+    """function-local names of fn in order of first binding occurrence"""
+    params = set()
+    a = fn.args
+    for arg in list(a.posonlyargs) + list(a.args) + list(a.kwonlyargs) + [x for x in (a.vararg, a.kwarg) if x is not None]:
+        params.add(arg.arg)
+    declared = set()
+    order = []
+
+    def bind(name):
+        if name not in params and name not in declared and name not in order:
+            order.append(name)
+
+    def targets(t):
+        if isinstance(t, ast.Name):
+            bind(t.id)
+        elif isinstance(t, (ast.Tuple, ast.List)):
+            for e in t.elts:
+                targets(e)
+        elif isinstance(t, ast.Starred):
+            targets(t.value)
+        # attributes / subscripts bind nothing local
+
+    def walk(n):
+        if isinstance(n, (ast.Global, ast.Nonlocal)):
+            declared.update(n.names)
+            for nm in n.names:
+                if nm in order:
+                    order.remove(nm)
+            return
+        if isinstance(n, (ast.Assign,)):
+            for t in n.targets:
+                targets(t)
+        elif isinstance(n, (ast.AugAssign, ast.AnnAssign, ast.NamedExpr)):
+            targets(n.target)
+        elif isinstance(n, (ast.For, ast.AsyncFor, ast.comprehension)):
+            targets(n.target)
+        elif isinstance(n, (ast.With, ast.AsyncWith)):
+            for i in n.items:
+                if i.optional_vars is not None:
+                    targets(i.optional_vars)
+        elif isinstance(n, ast.ExceptHandler):
+            if n.name:
+                bind(n.name)
+        elif isinstance(n, (ast.FunctionDef, ast.AsyncFunctionDef, ast.ClassDef)) and n is not fn:
+            bind(n.name)
+        elif isinstance(n, (ast.Import, ast.ImportFrom)):
+            for al in n.names:
+                bind((al.asname or al.name).split(".")[0])
+        for c in ast.iter_child_nodes(n):
+            walk(c)
+
+    for st in fn.body:
+        walk(st)
+    return order
+
+
+class _Renamer(ast.NodeTransformer):
+    def __init__(self, ren):
+        self.ren = ren
+
+    def visit_Name(self, n):
+        if n.id in self.ren:
+            return ast.copy_location(ast.Name(self.ren[n.id], n.ctx), n)
+        return n
+
+    def visit_ExceptHandler(self, n):
+        self.generic_visit(n)
+        if n.name in self.ren:
+            n.name = self.ren[n.name]
+        return n
+
+    def visit_FunctionDef(self, n):
+        self.generic_visit(n)
+        if n.name in self.ren:
+            n.name = self.ren[n.name]
+        n.returns = None
+        for arg in list(n.args.posonlyargs) + list(n.args.args) + list(n.args.kwonlyargs) + \
+                [x for x in (n.args.vararg, n.args.kwarg) if x is not None]:
+            arg.annotation = None
+        return n
+
+    def visit_AnnAssign(self, n):
+        self.generic_visit(n)
+        if n.value is None:
+            return ast.copy_location(ast.Pass(), n) if False else None     # a bare annotation is no statement at all
+        return ast.copy_location(ast.Assign([n.target], n.value), n)
+
+    def visit_alias(self, n):
+        key = (n.asname or n.name).split(".")[0]
+        if key in self.ren:
+            n.asname = self.ren[key]
+        return n
+
+
+def normalise_locals(fn):
+    """a copy of the FunctionDef with its local names normalised (see above)"""
+    import copy
+    fn = copy.deepcopy(fn)
+    ren = {name: "%s%d" % (_LOCAL_PREFIX, i + 1) for i, name in enumerate(_bound_names(fn))}
+    body = []
+    for st in fn.body:
+        r = _Renamer(ren).visit(st)
+        if r is not None:
+            body.append(r)
+    fn.body = body or [ast.Pass()]
+    ast.fix_missing_locations(fn)
+    return fn
 
 
 def _norm_src(node):
@@ -1502,7 +1635,7 @@ def shape_signature(src_dir):
             sig[key] = ["<missing>"]
             continue
         out = []
-        _stmt_tokens(node.body, out)
+        _stmt_tokens(normalise_locals(node).body, out)
         sig[key] = out
     for st in trees["wasyncore.py"].body:
         if isinstance(st, ast.Assign) and isinstance(st.targets[0], ast.Name) and \
@@ -1646,9 +1779,9 @@ EXPECTED_SHAPE = {'channel.py:HTTPChannel.__init__': ['w:outbufs',
                                                                 'if(not r:connected){',
                                                                 'return()',
                                                                 '}',
-                                                                'r:_flush_some const:False '
+                                                                'n:_L1 n:_L2 r:_flush_some const:False '
                                                                 'call:_flush_exception(do_close=False)',
-                                                                'if(){',
+                                                                'if(n:_L2){',
                                                                 'call:pull_trigger()',
                                                                 'call:wait()',
                                                                 'return()',
@@ -1660,36 +1793,40 @@ EXPECTED_SHAPE = {'channel.py:HTTPChannel.__init__': ['w:outbufs',
                                                                 '}',
                                                                 '}',
                                                                 '}'],
- 'channel.py:HTTPChannel._flush_some': ['const:False',
+ 'channel.py:HTTPChannel._flush_some': ['n:_L1',
+                                        'n:_L2 const:False',
                                         'while(const:True){',
-                                        'r:outbufs',
-                                        'while(cmp:Gt){',
-                                        'r:sendbuf_len call:get()',
-                                        'call:send(do_close=do_close)',
-                                        'if(){',
-                                        'const:True call:skip()',
-                                        'w:total_outbufs_len',
+                                        'n:_L3 r:outbufs',
+                                        'n:_L4 n:_L3',
+                                        'while(n:_L4 cmp:Gt){',
+                                        'n:_L5 n:_L3 r:sendbuf_len call:get()',
+                                        'n:_L6 n:_L5 call:send(do_close=do_close)',
+                                        'if(n:_L6){',
+                                        'n:_L3 n:_L6 const:True call:skip()',
+                                        'n:_L4 n:_L6',
+                                        'n:_L1 n:_L6',
+                                        'w:total_outbufs_len n:_L6',
                                         '}else{',
-                                        'const:True',
+                                        'n:_L2 const:True',
                                         'break',
                                         '}',
                                         '}else{',
                                         'if(r:outbufs cmp:Gt){',
-                                        'r:outbufs call:pop()',
+                                        'n:_L7 r:outbufs call:pop()',
                                         'try{',
-                                        'call:close()',
+                                        'n:_L7 call:close()',
                                         '}except(Exception){',
                                         "h:self.logger.exception('S')",
                                         '}',
                                         '}else{',
-                                        'const:True',
+                                        'n:_L2 const:True',
                                         '}',
                                         '}',
-                                        'if(){',
+                                        'if(n:_L2){',
                                         'break',
                                         '}',
                                         '}',
-                                        'if(){',
+                                        'if(n:_L1){',
                                         'return(const:True)',
                                         '}',
                                         'return(const:False)'],
@@ -1705,16 +1842,16 @@ EXPECTED_SHAPE = {'channel.py:HTTPChannel.__init__': ['w:outbufs',
                                                     '}',
                                                     '}'],
  'channel.py:HTTPChannel.add_channel': ['n:map call:add_channel()', 'r:active_channels r:_fileno'],
- 'channel.py:HTTPChannel.del_channel': ['n:fd r:_fileno',
+ 'channel.py:HTTPChannel.del_channel': ['n:_L1 r:_fileno',
                                         'n:map call:del_channel()',
-                                        'n:ac r:active_channels',
-                                        'if(n:fd cmp:In n:ac){',
-                                        'del(n:ac n:fd)',
+                                        'n:_L2 r:active_channels',
+                                        'if(n:_L1 cmp:In n:_L2){',
+                                        'del(n:_L2 n:_L1)',
                                         '}'],
  'channel.py:HTTPChannel.handle_close': ['with(self.outbuf_lock){',
                                          'for(r:outbufs){',
                                          'try{',
-                                         'call:close()',
+                                         'n:_L1 call:close()',
                                          '}except(Exception){',
                                          "h:self.logger.exception('S')",
                                          '}',
@@ -1725,7 +1862,7 @@ EXPECTED_SHAPE = {'channel.py:HTTPChannel.__init__': ['w:outbufs',
                                          '}',
                                          'call:close()'],
  'channel.py:HTTPChannel.handle_read': ['try{',
-                                        'call:recv()',
+                                        'n:_L1 call:recv()',
                                         '}except(OSError){',
                                         'h:if self.adj.log_socket_errors',
                                         'if(){',
@@ -1736,21 +1873,21 @@ EXPECTED_SHAPE = {'channel.py:HTTPChannel.__init__': ['w:outbufs',
                                         'h:return',
                                         'return()',
                                         '}',
-                                        'if(){',
-                                        'call:received()',
+                                        'if(n:_L1){',
+                                        'n:_L1 call:received()',
                                         '}else{',
                                         'w:connected const:False',
                                         '}'],
  'channel.py:HTTPChannel.handle_write': ['if(not r:requests){',
-                                         'r:_flush_some_if_lockable',
+                                         'n:_L1 r:_flush_some_if_lockable',
                                          '}else{',
                                          'if(bool:Or r:total_outbufs_len cmp:GtE r:total_outbufs_len cmp:Gt){',
-                                         'r:_flush_some_if_lockable',
+                                         'n:_L1 r:_flush_some_if_lockable',
                                          '}else{',
-                                         'const:None',
+                                         'n:_L1 const:None',
                                          '}',
                                          '}',
-                                         'call:_flush_exception()',
+                                         'n:_L1 call:_flush_exception()',
                                          'if(bool:And r:close_when_flushed not r:total_outbufs_len){',
                                          'w:close_when_flushed const:False',
                                          'w:will_close const:True',
@@ -1771,7 +1908,7 @@ EXPECTED_SHAPE = {'channel.py:HTTPChannel.__init__': ['w:outbufs',
                                      'if(r:request cmp:Is const:None){',
                                      'w:request',
                                      '}',
-                                     'r:request call:received()',
+                                     'n:_L1 r:request call:received()',
                                      'if(bool:And r:request r:expect_continue r:request r:headers_finished not '
                                      'r:requests not r:sent_continue){',
                                      'call:send_continue()',
@@ -1786,79 +1923,91 @@ EXPECTED_SHAPE = {'channel.py:HTTPChannel.__init__': ['w:outbufs',
                                      '}',
                                      'w:request const:None',
                                      '}',
-                                     'if(cmp:GtE){',
+                                     'if(n:_L1 cmp:GtE){',
                                      'break',
                                      '}',
+                                     'n:_L1',
                                      '}',
                                      '}',
                                      'return(const:True)'],
  'channel.py:HTTPChannel.send_continue': ['r:request w:expect_continue const:False',
-                                          "const:b'HTTP/1.1 100 Continue\\r\\n\\r\\n'",
+                                          "n:_L1 const:b'HTTP/1.1 100 Continue\\r\\n\\r\\n'",
+                                          'n:_L2 n:_L1',
                                           'with(self.outbuf_lock){',
-                                          'r:outbufs call:append()',
-                                          'w:current_outbuf_count',
-                                          'w:total_outbufs_len',
+                                          'r:outbufs n:_L1 call:append()',
+                                          'w:current_outbuf_count n:_L2',
+                                          'w:total_outbufs_len n:_L2',
                                           'w:sent_continue const:True',
                                           'r:_flush_some call:_flush_exception(do_close=do_close)',
                                           '}'],
- 'channel.py:HTTPChannel.service': ['r:requests',
-                                    'if(r:error){',
+ 'channel.py:HTTPChannel.service': ['n:_L1 r:requests',
+                                    'if(n:_L1 r:error){',
+                                    'n:_L2 n:_L1',
                                     '}else{',
+                                    'n:_L2 n:_L1',
                                     '}',
                                     'try{',
                                     'if(bool:And r:connected not r:will_close){',
-                                    'call:service()',
+                                    'n:_L2 call:service()',
                                     '}else{',
-                                    'w:close_on_finish const:True',
+                                    'n:_L2 w:close_on_finish const:True',
                                     '}',
                                     '}except(ClientDisconnected){',
-                                    "h:self.logger.info('S' % task.request.path)",
-                                    'r:request',
-                                    'h:task.close_on_finish = True',
-                                    'w:close_on_finish const:True',
+                                    "h:self.logger.info('S' % _L2.request.path)",
+                                    'n:_L2 r:request',
+                                    'h:_L2.close_on_finish = True',
+                                    'n:_L2 w:close_on_finish const:True',
                                     '}except(BaseException){',
-                                    "h:self.logger.exception('S' % task.request.path)",
-                                    'r:request',
-                                    'h:if not task.wrote_header',
-                                    'if(not){',
+                                    "h:self.logger.exception('S' % _L2.request.path)",
+                                    'n:_L2 r:request',
+                                    'h:if not _L2.wrote_header',
+                                    'if(not n:_L2){',
                                     'h:if self.adj.expose_tracebacks',
                                     'if(){',
-                                    'h:body = traceback.format_exc()',
+                                    'h:_L3 = traceback.format_exc()',
+                                    'n:_L3',
                                     '}else{',
-                                    "h:body = 'S'",
+                                    "h:_L3 = 'S'",
+                                    'n:_L3',
                                     '}',
-                                    'h:req_version = request.version',
-                                    'h:req_headers = request.headers',
-                                    'h:err_request = self.parser_class(self.adj)',
-                                    'h:err_request.error = InternalServerError(body)',
-                                    'w:error',
-                                    'h:err_request.version = req_version',
-                                    "h:err_request.command = getattr(request, 'S', None)",
-                                    'const:None',
+                                    'h:_L4 = _L1.version',
+                                    'n:_L4 n:_L1',
+                                    'h:_L5 = _L1.headers',
+                                    'n:_L5 n:_L1',
+                                    'h:_L6 = self.parser_class(self.adj)',
+                                    'n:_L6',
+                                    'h:_L6.error = InternalServerError(_L3)',
+                                    'n:_L6 w:error n:_L3',
+                                    'h:_L6.version = _L4',
+                                    'n:_L6 n:_L4',
+                                    "h:_L6.command = getattr(_L1, 'S', None)",
+                                    'n:_L6 n:_L1 const:None',
                                     'try{',
-                                    "h:err_request.headers['S'] = req_headers['S']",
+                                    "h:_L6.headers['S'] = _L5['S']",
+                                    'n:_L6 n:_L5',
                                     '}except(KeyError){',
                                     'h:pass',
                                     'pass',
                                     '}',
-                                    'h:task = self.error_task_class(self, err_request)',
+                                    'h:_L2 = self.error_task_class(self, _L6)',
+                                    'n:_L2 n:_L6',
                                     'try{',
-                                    'h:task.service()',
-                                    'call:service()',
+                                    'h:_L2.service()',
+                                    'n:_L2 call:service()',
                                     '}except(ClientDisconnected){',
-                                    'h:task.close_on_finish = True',
-                                    'w:close_on_finish const:True',
+                                    'h:_L2.close_on_finish = True',
+                                    'n:_L2 w:close_on_finish const:True',
                                     '}',
                                     '}else{',
-                                    'h:task.close_on_finish = True',
-                                    'w:close_on_finish const:True',
+                                    'h:_L2.close_on_finish = True',
+                                    'n:_L2 w:close_on_finish const:True',
                                     '}',
                                     '}',
-                                    'if(r:close_on_finish){',
+                                    'if(n:_L2 r:close_on_finish){',
                                     'with(self.requests_lock){',
                                     'w:close_when_flushed const:True',
                                     'for(r:requests){',
-                                    'call:close()',
+                                    'n:_L1 call:close()',
                                     '}',
                                     'w:requests',
                                     '}',
@@ -1869,7 +2018,7 @@ EXPECTED_SHAPE = {'channel.py:HTTPChannel.__init__': ['w:outbufs',
                                     'if(r:current_outbuf_count cmp:Gt){',
                                     'w:current_outbuf_count',
                                     '}',
-                                    'call:close()',
+                                    'n:_L1 call:close()',
                                     'with(self.requests_lock){',
                                     'r:requests call:pop()',
                                     'if(bool:And r:connected r:requests){',
@@ -1895,36 +2044,40 @@ EXPECTED_SHAPE = {'channel.py:HTTPChannel.__init__': ['w:outbufs',
                                        'if(not r:connected){',
                                        'raise(n:ClientDisconnected)',
                                        '}',
+                                       'n:_L1',
                                        'if(){',
                                        'r:outbufs call:append()',
-                                       'r:outbufs call:append()',
+                                       'n:_L2',
+                                       'r:outbufs n:_L2 call:append()',
                                        'w:current_outbuf_count',
                                        '}else{',
                                        'if(r:current_outbuf_count cmp:GtE){',
-                                       'r:outbufs call:append()',
+                                       'n:_L2',
+                                       'r:outbufs n:_L2 call:append()',
                                        'w:current_outbuf_count',
                                        '}',
                                        'r:outbufs call:append()',
-                                       'w:current_outbuf_count',
+                                       'w:current_outbuf_count n:_L1',
                                        '}',
-                                       'w:total_outbufs_len',
+                                       'w:total_outbufs_len n:_L1',
                                        'if(r:total_outbufs_len cmp:GtE){',
-                                       'r:_flush_some const:False call:_flush_exception(do_close=False)',
-                                       'if(bool:Or not r:total_outbufs_len cmp:GtE){',
+                                       'n:_L3 n:_L4 r:_flush_some const:False call:_flush_exception(do_close=False)',
+                                       'if(bool:Or n:_L4 not n:_L3 r:total_outbufs_len cmp:GtE){',
                                        'call:pull_trigger()',
                                        '}',
                                        '}',
                                        '}',
-                                       'return()',
+                                       'return(n:_L1)',
                                        '}',
                                        'return()'],
  'server.py:BaseWSGIServer.close': ['call:close()', 'return(call:close())'],
  'server.py:BaseWSGIServer.handle_accept': ['try{',
-                                            'call:accept()',
-                                            'if(cmp:Is const:None){',
+                                            'n:_L1 call:accept()',
+                                            'if(n:_L1 cmp:Is const:None){',
                                             'return()',
                                             '}',
-                                            'call:set_socket_options()',
+                                            'n:_L2 n:_L3 n:_L1',
+                                            'n:_L2 call:set_socket_options()',
                                             '}except(OSError){',
                                             'h:if self.adj.log_socket_errors',
                                             'if(){',
@@ -1934,9 +2087,9 @@ EXPECTED_SHAPE = {'channel.py:HTTPChannel.__init__': ['w:outbufs',
                                             'h:return',
                                             'return()',
                                             '}',
-                                            'call:fix_addr()',
+                                            'n:_L3 n:_L3 call:fix_addr()',
                                             'try{',
-                                            'r:_map call:channel_class()',
+                                            'n:_L2 n:_L3 r:_map call:channel_class()',
                                             '}except(OSError){',
                                             'h:if self.adj.log_socket_errors',
                                             'if(){',
@@ -1944,8 +2097,8 @@ EXPECTED_SHAPE = {'channel.py:HTTPChannel.__init__': ['w:outbufs',
                                             'const:True',
                                             '}',
                                             'try{',
-                                            'h:conn.close()',
-                                            'call:close()',
+                                            'h:_L2.close()',
+                                            'n:_L2 call:close()',
                                             '}except(OSError){',
                                             'h:pass',
                                             'pass',
@@ -1967,11 +2120,13 @@ EXPECTED_SHAPE = {'channel.py:HTTPChannel.__init__': ['w:outbufs',
                                                    'call:notify()',
                                                    'break',
                                                    '}',
+                                                   'n:_L1',
                                                    '}',
                                                    'try{',
-                                                   'call:service()',
+                                                   'n:_L1 call:service()',
                                                    '}except(BaseException){',
-                                                   "h:self.logger.exception('S', task)",
+                                                   "h:self.logger.exception('S', _L1)",
+                                                   'n:_L1',
                                                    '}',
                                                    '}'],
  'trigger.py:_triggerbase.close': ['if(not){', 'const:True', 'call:del_channel()', '}'],
@@ -1986,8 +2141,10 @@ EXPECTED_SHAPE = {'channel.py:HTTPChannel.__init__': ['w:outbufs',
                                          'for(){',
                                          'try{',
                                          '}except(*){',
-                                         'h:nil, t, v, tbinfo = wasyncore.compact_traceback()',
-                                         "h:self.log_info(f'S{t}S{v}S{tbinfo}S')",
+                                         'h:_L2, _L3, _L4, _L5 = wasyncore.compact_traceback()',
+                                         'n:_L2 n:_L3 n:_L4 n:_L5',
+                                         "h:self.log_info(f'S{_L3}S{_L4}S{_L5}S')",
+                                         'n:_L3 n:_L4 n:_L5',
                                          '}',
                                          '}',
                                          '}'],
@@ -2004,7 +2161,9 @@ EXPECTED_SHAPE = {'channel.py:HTTPChannel.__init__': ['w:outbufs',
                         'n:map',
                         '}',
                         'if(bool:And){',
+                        'n:_L1',
                         '}else{',
+                        'n:_L1',
                         '}',
                         'if(cmp:Is const:None){',
                         'while(n:map){',
@@ -2019,26 +2178,31 @@ EXPECTED_SHAPE = {'channel.py:HTTPChannel.__init__': ['w:outbufs',
                         'n:map',
                         '}',
                         'if(n:map){',
+                        'n:_L1',
+                        'n:_L2',
+                        'n:_L3',
                         'for(n:map call:items()){',
-                        'if(){',
-                        'n:fd call:append()',
+                        'n:_L6 n:_L5',
+                        'n:_L7 n:_L5',
+                        'if(n:_L6){',
+                        'n:_L1 n:_L4 call:append()',
                         '}',
-                        'if(bool:And not r:accepting){',
-                        'n:fd call:append()',
+                        'if(bool:And n:_L7 not n:_L5 r:accepting){',
+                        'n:_L2 n:_L4 call:append()',
                         '}',
-                        'if(bool:Or){',
-                        'n:fd call:append()',
+                        'if(bool:Or n:_L6 n:_L7){',
+                        'n:_L3 n:_L4 call:append()',
                         '}',
                         '}',
-                        'if(cmp:Eq cmp:Eq cmp:Eq){',
+                        'if(cmp:Eq n:_L1 cmp:Eq n:_L2 cmp:Eq n:_L3){',
                         'call:sleep()',
                         'return()',
                         '}',
                         'try{',
-                        'call:select()',
+                        'n:_L1 n:_L2 n:_L3 n:_L1 n:_L2 n:_L3 call:select()',
                         '}except(OSError){',
-                        'h:if err.args[0] != EINTR',
-                        'if(cmp:NotEq n:EINTR){',
+                        'h:if _L8.args[0] != EINTR',
+                        'if(n:_L8 cmp:NotEq n:EINTR){',
                         'h:raise',
                         'raise()',
                         '}else{',
@@ -2046,26 +2210,26 @@ EXPECTED_SHAPE = {'channel.py:HTTPChannel.__init__': ['w:outbufs',
                         'return()',
                         '}',
                         '}',
-                        'for(){',
-                        'n:map n:fd call:get()',
-                        'if(cmp:Is const:None){',
+                        'for(n:_L1){',
+                        'n:_L5 n:map n:_L4 call:get()',
+                        'if(n:_L5 cmp:Is const:None){',
                         'continue',
                         '}',
-                        'call:read()',
+                        'n:_L5 call:read()',
                         '}',
-                        'for(){',
-                        'n:map n:fd call:get()',
-                        'if(cmp:Is const:None){',
+                        'for(n:_L2){',
+                        'n:_L5 n:map n:_L4 call:get()',
+                        'if(n:_L5 cmp:Is const:None){',
                         'continue',
                         '}',
-                        'call:write()',
+                        'n:_L5 call:write()',
                         '}',
-                        'for(){',
-                        'n:map n:fd call:get()',
-                        'if(cmp:Is const:None){',
+                        'for(n:_L3){',
+                        'n:_L5 n:map n:_L4 call:get()',
+                        'if(n:_L5 cmp:Is const:None){',
                         'continue',
                         '}',
-                        'call:_exception()',
+                        'n:_L5 call:_exception()',
                         '}',
                         '}'],
  'wasyncore.py:.poll2': ['if(n:map cmp:Is const:None){',
@@ -2073,33 +2237,37 @@ EXPECTED_SHAPE = {'channel.py:HTTPChannel.__init__': ['w:outbufs',
                          '}',
                          'if(cmp:IsNot const:None){',
                          '}',
-                         'call:poll()',
+                         'n:_L1 call:poll()',
                          'if(n:map){',
                          'for(n:map call:items()){',
-                         'if(){',
+                         'n:_L4',
+                         'if(n:_L3){',
+                         'n:_L4',
                          '}',
-                         'if(bool:And not r:accepting){',
+                         'if(bool:And n:_L3 not n:_L3 r:accepting){',
+                         'n:_L4',
                          '}',
-                         'if(){',
-                         'n:fd call:register()',
+                         'if(n:_L4){',
+                         'n:_L1 n:_L2 n:_L4 call:register()',
                          '}',
                          '}',
                          'try{',
-                         'call:poll()',
+                         'n:_L5 n:_L1 call:poll()',
                          '}except(OSError){',
-                         'h:if err.args[0] != EINTR',
-                         'if(cmp:NotEq n:EINTR){',
+                         'h:if _L6.args[0] != EINTR',
+                         'if(n:_L6 cmp:NotEq n:EINTR){',
                          'h:raise',
                          'raise()',
                          '}',
-                         'h:r = []',
+                         'h:_L5 = []',
+                         'n:_L5',
                          '}',
-                         'for(){',
-                         'n:map n:fd call:get()',
-                         'if(cmp:Is const:None){',
+                         'for(n:_L5){',
+                         'n:_L3 n:map n:_L2 call:get()',
+                         'if(n:_L3 cmp:Is const:None){',
                          'continue',
                          '}',
-                         'call:readwrite()',
+                         'n:_L3 n:_L4 call:readwrite()',
                          '}',
                          '}'],
  'wasyncore.py:.read': ['try{',
@@ -2125,8 +2293,8 @@ EXPECTED_SHAPE = {'channel.py:HTTPChannel.__init__': ['w:outbufs',
                              'call:handle_close()',
                              '}',
                              '}except(OSError){',
-                             'h:if e.args[0] not in _DISCONNECTED',
-                             'if(cmp:NotIn n:_DISCONNECTED){',
+                             'h:if _L1.args[0] not in _DISCONNECTED',
+                             'if(n:_L1 cmp:NotIn n:_DISCONNECTED){',
                              'h:obj.handle_error()',
                              'call:handle_error()',
                              '}else{',
@@ -2164,13 +2332,13 @@ EXPECTED_SHAPE = {'channel.py:HTTPChannel.__init__': ['w:outbufs',
                                       'w:socket const:None',
                                       '}'],
  'wasyncore.py:dispatcher.accept': ['try{',
-                                    'r:socket call:accept()',
+                                    'n:_L1 n:_L2 r:socket call:accept()',
                                     '}except(TypeError){',
                                     'h:return None',
                                     'return(const:None)',
                                     '}except(OSError){',
-                                    'h:if why.args[0] in (EWOULDBLOCK, ECONNABORTED, EAGAIN)',
-                                    'if(cmp:In n:EWOULDBLOCK n:ECONNABORTED n:EAGAIN){',
+                                    'h:if _L3.args[0] in (EWOULDBLOCK, ECONNABORTED, EAGAIN)',
+                                    'if(n:_L3 cmp:In n:EWOULDBLOCK n:ECONNABORTED n:EAGAIN){',
                                     'h:return None',
                                     'return(const:None)',
                                     '}else{',
@@ -2178,7 +2346,7 @@ EXPECTED_SHAPE = {'channel.py:HTTPChannel.__init__': ['w:outbufs',
                                     'raise()',
                                     '}',
                                     '}else{',
-                                    'return()',
+                                    'return(n:_L1 n:_L2)',
                                     '}'],
  'wasyncore.py:dispatcher.add_channel': ['if(n:map cmp:Is const:None){', 'n:map r:_map', '}', 'n:map r:_fileno'],
  'wasyncore.py:dispatcher.close': ['w:connected const:False',
@@ -2189,30 +2357,34 @@ EXPECTED_SHAPE = {'channel.py:HTTPChannel.__init__': ['w:outbufs',
                                    'try{',
                                    'r:socket call:close()',
                                    '}except(OSError){',
-                                   'h:if why.args[0] not in (ENOTCONN, EBADF)',
-                                   'if(cmp:NotIn n:ENOTCONN n:EBADF){',
+                                   'h:if _L1.args[0] not in (ENOTCONN, EBADF)',
+                                   'if(n:_L1 cmp:NotIn n:ENOTCONN n:EBADF){',
                                    'h:raise',
                                    'raise()',
                                    '}',
                                    '}',
                                    'w:socket const:None',
                                    '}'],
- 'wasyncore.py:dispatcher.del_channel': ['n:fd r:_fileno',
+ 'wasyncore.py:dispatcher.del_channel': ['n:_L1 r:_fileno',
                                          'if(n:map cmp:Is const:None){',
                                          'n:map r:_map',
                                          '}',
-                                         'if(n:fd cmp:In n:map){',
-                                         'del(n:map n:fd)',
+                                         'if(n:_L1 cmp:In n:map){',
+                                         'del(n:map n:_L1)',
                                          '}',
                                          'w:_fileno const:None'],
  'wasyncore.py:dispatcher.handle_close': ['call:close()'],
- 'wasyncore.py:dispatcher.handle_error': ['try{',
+ 'wasyncore.py:dispatcher.handle_error': ['n:_L1 n:_L2 n:_L3 n:_L4',
+                                          'try{',
+                                          'n:_L5',
                                           '}except(*){',
-                                          "h:self_repr = 'S' % id(self)",
+                                          "h:_L5 = 'S' % id(self)",
+                                          'n:_L5',
                                           '}',
+                                          'n:_L5 n:_L2 n:_L3 n:_L4',
                                           'call:handle_close()'],
- 'wasyncore.py:dispatcher.handle_expt_event': ['r:socket cmp:IsNot const:None r:socket call:getsockopt()',
-                                               'if(cmp:NotEq){',
+ 'wasyncore.py:dispatcher.handle_expt_event': ['n:_L1 r:socket cmp:IsNot const:None r:socket call:getsockopt()',
+                                               'if(n:_L1 cmp:NotEq){',
                                                'call:handle_close()',
                                                '}else{',
                                                'call:handle_expt()',
@@ -2239,16 +2411,16 @@ EXPECTED_SHAPE = {'channel.py:HTTPChannel.__init__': ['w:outbufs',
                                                 '}',
                                                 'call:handle_write()'],
  'wasyncore.py:dispatcher.recv': ['try{',
-                                  'r:socket call:recv()',
-                                  'if(not){',
+                                  'n:_L1 r:socket call:recv()',
+                                  'if(not n:_L1){',
                                   'call:handle_close()',
                                   "return(const:b'')",
                                   '}else{',
-                                  'return()',
+                                  'return(n:_L1)',
                                   '}',
                                   '}except(OSError){',
-                                  'h:if why.args[0] in _DISCONNECTED',
-                                  'if(cmp:In n:_DISCONNECTED){',
+                                  'h:if _L2.args[0] in _DISCONNECTED',
+                                  'if(n:_L2 cmp:In n:_DISCONNECTED){',
                                   'h:self.handle_close()',
                                   'call:handle_close()',
                                   "h:return b''",
@@ -2259,16 +2431,16 @@ EXPECTED_SHAPE = {'channel.py:HTTPChannel.__init__': ['w:outbufs',
                                   '}',
                                   '}'],
  'wasyncore.py:dispatcher.send': ['try{',
-                                  'r:socket call:send()',
-                                  'return()',
+                                  'n:_L1 r:socket call:send()',
+                                  'return(n:_L1)',
                                   '}except(OSError){',
-                                  'h:if why.args[0] == EWOULDBLOCK',
-                                  'if(cmp:Eq n:EWOULDBLOCK){',
+                                  'h:if _L2.args[0] == EWOULDBLOCK',
+                                  'if(n:_L2 cmp:Eq n:EWOULDBLOCK){',
                                   'h:return 0',
                                   'return()',
                                   '}else{',
-                                  'h:if why.args[0] in _DISCONNECTED',
-                                  'if(cmp:In n:_DISCONNECTED){',
+                                  'h:if _L2.args[0] in _DISCONNECTED',
+                                  'if(n:_L2 cmp:In n:_DISCONNECTED){',
                                   'h:if do_close',
                                   'if(){',
                                   'h:self.handle_close()',
@@ -2472,6 +2644,11 @@ def listener_monitor(world, exps, must_serve=()):
     for (_, _, (what, srv)) in exps:
         if not all(srv.values()):
             problems.append(("listener_closed", srv))
+            break
+    for (_, snap, _) in exps:
+        bad = [fd for fd, st in snap.items() if st is not None and "broken" in st and (st["in_map"] or st["in_act"])]
+        if bad:
+            problems.append(("half_built_channel_polled", bad))
             break
     if world.io_error is not None:
         problems.append(("loop_died", repr(world.io_error)))
